@@ -152,7 +152,8 @@ def checked(fa, s):
     e = result_edges(fa, s, _explicit_only=True)
     if e is not None and e["err"] is not None and e["ok"] is not None:
         vals = [t for bb, _, t in ret_assigns(fa) if bb in fa.reach(e["err"], include_src=True)]
-        errs = [t for t in vals if is_agg(t, "Err") or (t[0] == "call" and t[2] in FROM_RESIDUAL)]
+        # Err(e) with e the error payload of the call's own result folds to that result itself
+        errs = [t for t in vals if is_agg(t, "Err") or (t[0] == "call" and t[2] in FROM_RESIDUAL) or s in call_root_bb(t)]
         if errs and not fa.can_reach(e["err"], e["ok"]) and e["err"] != e["ok"]:
             return {"branch": None, "ok": e["ok"], "err": e["err"]}
     # the (awaited) Result is itself the function's result: `return f().await;` / tail expression —
@@ -452,6 +453,24 @@ def bool_switches(fa, pred):
         if neg:
             tr, f = f, tr
         yield b.i, o, tr, f
+
+
+def option_tests(fa, pred):
+    """tests of an Option value whose origin term satisfies pred, however written — `x.is_some()` /
+    `x.is_none()` (canonical is_some) or a `match` / `if let` on x: yields (bb, value term, Some
+    edge, None edge)"""
+    for b, o, tr, fl in bool_switches(fa, lambda o: o[0] == "call" and o[2].endswith("::is_some") and o[3] and pred(o[3][0])):
+        yield b, o[3][0], tr, fl
+    for b, o, tg, other in switch_edges_on(fa, lambda o: o[0] == "disc" and pred(o[1])):
+        yield b, o[1], tg.get(1, other), tg.get(0, other)
+
+
+def is_err_value(t, containing=None):
+    """an error result: an Err(..) aggregate, or what `?` builds from one (from_residual)"""
+    if not isinstance(t, tuple):
+        return False
+    ok = is_agg(t, "Err") or (t[0] == "call" and t[2] in FROM_RESIDUAL)
+    return ok and (containing is None or containing in term_str(t))
 
 
 def region(fa, start, avoiding=()):
